@@ -614,3 +614,97 @@ func TestD20_DijkstraDistancesBeyond32Bits(t *testing.T) {
 		}
 	}
 }
+
+// D21 (C15): NewValueSet used the upper-cased value name as the Go field name
+// of the struct it assembles; a value name that is not a Go identifier (any
+// name a struct tag or Named() can carry, e.g. "my-value") made
+// reflect.StructOf panic instead of yielding the value set.
+func TestD21_NewValueSetWithNonIdentifierNames(t *testing.T) {
+	for _, name := range []string{"my-value", "9lives", "a/b", "two words", "x.y", `q"r`} {
+		name := name
+		t.Run(name, func(t *testing.T) {
+			var vs *argmapper.ValueSet
+			var err error
+			func() {
+				defer func() {
+					if r := recover(); r != nil {
+						t.Fatalf("NewValueSet panicked: %v", r)
+					}
+				}()
+				vs, err = argmapper.NewValueSet([]argmapper.Value{
+					{Name: name, Type: reflect.TypeOf(0), Subtype: "s"},
+					{Name: "", Type: reflect.TypeOf("")},
+				})
+			}()
+			if err != nil {
+				t.Fatalf("NewValueSet: %v", err)
+			}
+			vals := vs.Values()
+			if len(vals) != 2 || vals[0].Name != name || vals[0].Subtype != "s" || vals[0].Type != reflect.TypeOf(0) {
+				t.Fatalf("values reported back: %+v", vals)
+			}
+			if vs.Named(name) == nil {
+				t.Fatalf("Named(%q) finds nothing", name)
+			}
+			// and a function built over the set receives the value
+			got := 0
+			f, err := argmapper.BuildFunc(vs, nil, func(in, out *argmapper.ValueSet) error {
+				got = int(in.Named(name).Value.Int())
+				return nil
+			})
+			if err != nil {
+				t.Fatalf("BuildFunc: %v", err)
+			}
+			res, p := call(f, argmapper.NamedSubtype(name, 42, "s"), argmapper.Typed("x"))
+			if p != nil {
+				t.Fatalf("panic: %v", p)
+			}
+			if res.Err() != nil || got != 42 {
+				t.Fatalf("built function: err=%v got=%d", res.Err(), got)
+			}
+		})
+	}
+}
+
+// D22 (C15, C14): a function whose result is a POINTER to a marker struct is
+// documented as equivalent to the struct form, but Output().FromResult(result)
+// handed the pointer to reflect's Field and panicked.
+type d22Out struct {
+	argmapper.Struct
+	A int
+	B string `argmapper:",typeOnly"`
+}
+
+func TestD22_FromResultOnPointerStructOutput(t *testing.T) {
+	f := argmapper.MustFunc(argmapper.NewFunc(func(n int) *d22Out {
+		if n < 0 {
+			return nil
+		}
+		return &d22Out{A: n, B: "b"}
+	}))
+	for _, n := range []int{7, -1} {
+		res, p := call(f, argmapper.Typed(n))
+		if p != nil || res.Err() != nil {
+			t.Fatalf("call: %v %v", p, res.Err())
+		}
+		var err error
+		func() {
+			defer func() {
+				if r := recover(); r != nil {
+					t.Fatalf("FromResult panicked: %v", r)
+				}
+			}()
+			err = f.Output().FromResult(res)
+		}()
+		if err != nil {
+			t.Fatalf("FromResult: %v", err)
+		}
+		want := n
+		if n < 0 {
+			want = 0 // a nil pointer result is equivalent to zero values
+		}
+		if got := f.Output().Named("a").Value.Int(); int(got) != want {
+			t.Fatalf("a = %d, want %d", got, want)
+		}
+	}
+}
